@@ -693,5 +693,56 @@ theorem fround_nonneg_of_nonneg {q : ℚ} (h : 0 ≤ q) :
   have h0 : (0 : Int) ≤ (q + 1 / 2).floor := Rat.le_floor_iff.mpr (by push_cast; linarith)
   exact_mod_cast h0
 
+/-! ### decoded bit patterns are values of the format -/
+
+/-- every finite f64 bit pattern decodes to a representable value below the overflow threshold -/
+theorem val64_rep (b : F64) {q : ℚ} (h : val64 b = .fin q) : Rep 53 (-1074) q ∧ |q| < pow2 1024 := by
+  unfold val64 decodeBits at h
+  simp only [] at h
+  set mant := b.toNat % 2 ^ 52 with hmant
+  set ex := b.toNat / 2 ^ 52 % 2 ^ 11 with hex
+  have hm : mant < 2 ^ 52 := Nat.mod_lt _ (by positivity)
+  have he : ex < 2 ^ 11 := Nat.mod_lt _ (by positivity)
+  split at h
+  · split at h <;> exact absurd h (by simp)
+  · rename_i hne
+    injection h with h
+    have hbias : ((2 ^ (11 - 1) - 1 : Nat) : Int) = 1023 := by norm_num
+    rw [hbias] at h
+    -- magnitude
+    have key : ∀ mag : ℚ, (∃ (m : Nat) (e : Int), -1074 ≤ e ∧ m < 2 ^ 53 ∧ e + 53 ≤ 1024 ∧ mag = (m : ℚ) * pow2 e) →
+        Rep 53 (-1074) mag ∧ |mag| < pow2 1024 := by
+      rintro mag ⟨m, e, h1, h2, h3, rfl⟩
+      refine ⟨⟨m, e, h1, ?_, by push_cast; rfl⟩, ?_⟩
+      · rw [abs_of_nonneg (by positivity)]; exact_mod_cast h2
+      · rw [abs_of_nonneg (mul_nonneg (by positivity) (pow2_pos _).le)]
+        calc (m : ℚ) * pow2 e < pow2 53 * pow2 e := by
+              apply mul_lt_mul_of_pos_right _ (pow2_pos _)
+              rw [pow2_eq_zpow]; norm_num
+              exact_mod_cast h2
+          _ = pow2 (53 + e) := (pow2_add _ _).symm
+          _ ≤ pow2 1024 := pow2_le_pow2 (by omega)
+    have hmag : ∃ (m : Nat) (e : Int), -1074 ≤ e ∧ m < 2 ^ 53 ∧ e + 53 ≤ 1024 ∧
+        (if ex = 0 then (mant : ℚ) * pow2 (1 - 1023 - ((52 : Nat) : Int))
+         else ((2 ^ 52 + mant : Nat) : ℚ) * pow2 ((ex : Int) - 1023 - ((52 : Nat) : Int))) = (m : ℚ) * pow2 e := by
+      by_cases h0 : ex = 0
+      · rw [if_pos h0]
+        exact ⟨mant, _, by norm_num, by omega, by norm_num, rfl⟩
+      · rw [if_neg h0]
+        have : ex ≤ 2 ^ 11 - 2 := by omega
+        refine ⟨2 ^ 52 + mant, _, ?_, by omega, ?_, rfl⟩
+        · push_cast; omega
+        · push_cast; omega
+    obtain ⟨hr, hb⟩ := key _ hmag
+    rw [← h]
+    split
+    · exact ⟨hr.neg, by rwa [abs_neg]⟩
+    · exact ⟨hr, hb⟩
+
+theorem val64_round_self (b : F64) {q : ℚ} (h : val64 b = .fin q) : f64.round q = .fin q := by
+  obtain ⟨hr, hb⟩ := val64_rep b h
+  rw [abs_lt] at hb
+  exact Fmt.round_eq_self_of_rep f64 hr hb.2 hb.1
+
 end Fp
 end Mb
